@@ -14,11 +14,14 @@
 //	E|<kek>|<ad>|<hex>|<label>              EncryptedKeyset through keyset.ReadWithAssociatedData with
 //	                                        an AES-GCM (no prefix) key-encryption key
 //
-// Observation: "U" when the decoded keyset holds one of the 5 key types whose
-// parser the model does not transcribe (then only the direct check decides), otherwise
-// "c:<o>|n:<o>" (cleartext reader, no-secrets reader) or "e:<o>", <o> = err or
-// h[id.status.primary.idreq.prefix.prim,...] with prim = + (a primitive is
-// created from the key), - (constructor error), ~ (not a modelled type).
+//	P|<KeyTemplate hex>|<label>             protoserialization.ParseParameters on the decoded template (params.go)
+//
+// Observation: "c:<o>|n:<o>" (cleartext reader, no-secrets reader) or "e:<o>",
+// <o> = err or h[id.status.primary.idreq.prefix.prim,...] with prim = + (a
+// primitive is created from the key), - (constructor error), ~ (no registered
+// parser: the fallback key); a PRF-based deriver key adds {<prf key>;<derived
+// key parameters>} (deriverDetail).  Every registered key type is modelled: no
+// case is decided by the direct check alone any more.
 package c14
 
 import (
@@ -45,9 +48,13 @@ import (
 	_ "github.com/tink-crypto/tink-go/v2/jwt/jwtmldsa"
 	"github.com/tink-crypto/tink-go/v2/key"
 	"github.com/tink-crypto/tink-go/v2/keyderivation"
+	"github.com/tink-crypto/tink-go/v2/keyderivation/prfbasedkeyderivation"
 	"github.com/tink-crypto/tink-go/v2/keyset"
 	"github.com/tink-crypto/tink-go/v2/mac"
 	"github.com/tink-crypto/tink-go/v2/prf"
+	"github.com/tink-crypto/tink-go/v2/prf/aescmacprf"
+	"github.com/tink-crypto/tink-go/v2/prf/hkdfprf"
+	"github.com/tink-crypto/tink-go/v2/prf/hmacprf"
 	"github.com/tink-crypto/tink-go/v2/secretdata"
 	"github.com/tink-crypto/tink-go/v2/signature"
 	_ "github.com/tink-crypto/tink-go/v2/signature/compositemldsa"
@@ -74,6 +81,7 @@ import (
 	jwthmacpb "github.com/tink-crypto/tink-go/v2/proto/jwt_hmac_go_proto"
 	jwtpk1pb "github.com/tink-crypto/tink-go/v2/proto/jwt_rsa_ssa_pkcs1_go_proto"
 	jwtpsspb "github.com/tink-crypto/tink-go/v2/proto/jwt_rsa_ssa_pss_go_proto"
+	prfderpb "github.com/tink-crypto/tink-go/v2/proto/prf_based_deriver_go_proto"
 	pk1pb "github.com/tink-crypto/tink-go/v2/proto/rsa_ssa_pkcs1_go_proto"
 	psspb "github.com/tink-crypto/tink-go/v2/proto/rsa_ssa_pss_go_proto"
 	tinkpb "github.com/tink-crypto/tink-go/v2/proto/tink_go_proto"
@@ -110,6 +118,7 @@ func init() {
 		"MlDsaPrivateKey", "JwtMlDsaPrivateKey",
 		// fourth round: the nested key data go to the parsers already transcribed
 		"CompositeMlDsaPublicKey", "CompositeMlDsaPrivateKey"}
+	// fifth round: the deriver key nests a PRF key and a key template (parameters parsers of every type)
 	rest := []string{"PrfBasedDeriverKey"}
 	for _, n := range base {
 		modelled[tp+n] = true
@@ -120,7 +129,7 @@ func init() {
 		outside16[tp+n] = true
 	}
 	for _, n := range rest {
-		unmodelled[tp+n] = true
+		modelled[tp+n] = true // C14 models it (coq/model/UntrustedParams.v); C13's view (outside16) is unchanged
 		outside16[tp+n] = true
 	}
 }
@@ -217,10 +226,36 @@ func shape(h *keyset.Handle) string {
 				prim = "+"
 			}
 		}
-		fmt.Fprintf(&sb, "%d.%s.%s.%s.%d.%s", e.KeyID(), statusStr(e.KeyStatus()), p, req, int32(ki.GetOutputPrefixType()), prim)
+		fmt.Fprintf(&sb, "%d.%s.%s.%s.%d.%s%s", e.KeyID(), statusStr(e.KeyStatus()), p, req, int32(ki.GetOutputPrefixType()), prim, deriverDetail(e.Key()))
 	}
 	sb.WriteString("]")
 	return sb.String()
+}
+
+// deriverDetail: the observable fields of a PRF-based deriver key object: its
+// PRF key (type, key size, hash) and the parameters of the keys it derives.
+func deriverDetail(k key.Key) string {
+	dk, ok := k.(*prfbasedkeyderivation.Key)
+	if !ok {
+		return ""
+	}
+	prfS := fmt.Sprintf("?%T", dk.PRFKey())
+	switch pk := dk.PRFKey().(type) {
+	case *hkdfprf.Key:
+		pp := pk.Parameters().(*hkdfprf.Parameters)
+		prfS = fmt.Sprintf("hkdf(%d,%d)", pp.KeySizeInBytes(), cd(hashCodes, pp.HashType()))
+	case *hmacprf.Key:
+		pp := pk.Parameters().(*hmacprf.Parameters)
+		prfS = fmt.Sprintf("hmacprf(%d,%d)", pp.KeySizeInBytes(), cd(hashCodes, pp.HashType()))
+	case *aescmacprf.Key:
+		pp := pk.Parameters().(*aescmacprf.Parameters)
+		prfS = fmt.Sprintf("cmacprf(%d)", pp.KeySizeInBytes())
+	}
+	dp := "?"
+	if ps, ok := dk.Parameters().(*prfbasedkeyderivation.Parameters); ok {
+		dp = renderParams(ps.DerivedKeyParameters())
+	}
+	return "{" + prfS + ";" + dp + "}"
 }
 
 func outcome(h *keyset.Handle, err error) string {
@@ -391,14 +426,10 @@ func execute(in string) *run {
 }
 
 func c14Run(in string) string {
+	if strings.HasPrefix(in, "P|") {
+		return runParams(strings.Split(in, "|")[1])
+	}
 	r := execute(in)
-	pre := r.ks
-	if r.kind == "M" {
-		pre = r.pre // M lines decide U on the message before the injections
-	}
-	if r.decoded && pre != nil && anyUnmodelled(pre) {
-		return "U"
-	}
 	var parts []string
 	for i, p := range r.paths {
 		parts = append(parts, p+":"+outcome(r.handles[i], r.errs[i]))
@@ -609,6 +640,11 @@ func weakKey(kd *tinkpb.KeyData) string {
 		if proto.Unmarshal(v, k) == nil && len(k.GetKeyValue()) < 32 {
 			return "HKDF-PRF key under 32 bytes"
 		}
+	case "PrfBasedDeriverKey": // the PRF key it nests
+		k := &prfderpb.PrfBasedDeriverKey{}
+		if proto.Unmarshal(v, k) == nil && k.GetPrfKey() != nil {
+			return weakKey(k.GetPrfKey())
+		}
 	case "RsaSsaPkcs1PublicKey":
 		k := &pk1pb.RsaSsaPkcs1PublicKey{}
 		if proto.Unmarshal(v, k) == nil {
@@ -774,6 +810,24 @@ func selfCheck(p any, k key.Key, typeURL string) (res string) {
 		a.Decrypt(msg, ctx)
 	case tink.HybridEncrypt:
 		a.Encrypt(msg, ctx)
+	case interface {
+		DeriveKey([]byte) (key.Key, error)
+	}:
+		// the deriver is a function of the salt; a derived key must give a primitive or an error, not a panic
+		if hugeTemplate(k) {
+			return "" // make([]byte, KeySizeInBytes()) with a size of gigabytes: exercised by the deriver-huge-* cases only through parsing
+		}
+		k1, err := a.DeriveKey(msg)
+		if err != nil {
+			return ""
+		}
+		k2, err := a.DeriveKey(msg)
+		if err != nil || !k1.Equal(k2) {
+			return "key derivation is not a function of the salt"
+		}
+		if _, _, pn := primFromKey(k1); pn != "" {
+			return "primitive constructor of a derived key panicked: " + pn
+		}
 	case tink.StreamingAEAD:
 		var buf bytes.Buffer
 		w, err := a.NewEncryptingWriter(&buf, ctx)
@@ -796,6 +850,54 @@ func selfCheck(p any, k key.Key, typeURL string) (res string) {
 		}
 	}
 	return ""
+}
+
+// deriverMustReject: an independent reading (generated proto types only) of what
+// an accepted PRF-based deriver key must satisfy: version 0, labelled SYMMETRIC,
+// a PRF key of one of the three PRF types, a derived key template that carries
+// the key's own output prefix type.
+func deriverMustReject(kd *tinkpb.KeyData, prefix tinkpb.OutputPrefixType) string {
+	if kd.GetTypeUrl() != tp+"PrfBasedDeriverKey" {
+		return ""
+	}
+	k := &prfderpb.PrfBasedDeriverKey{}
+	if proto.Unmarshal(kd.GetValue(), k) != nil {
+		return "its value is not a PrfBasedDeriverKey message"
+	}
+	if k.GetVersion() != 0 {
+		return fmt.Sprintf("its version is %d", k.GetVersion())
+	}
+	if kd.GetKeyMaterialType() != tinkpb.KeyData_SYMMETRIC {
+		return fmt.Sprintf("its material type is %v", kd.GetKeyMaterialType())
+	}
+	switch k.GetPrfKey().GetTypeUrl() {
+	case tp + "HkdfPrfKey", tp + "HmacPrfKey", tp + "AesCmacPrfKey":
+	default:
+		return "its PRF key is of type " + k.GetPrfKey().GetTypeUrl()
+	}
+	if k.GetParams().GetDerivedKeyTemplate().GetOutputPrefixType() != prefix {
+		return fmt.Sprintf("its template has prefix type %v, the key %v", k.GetParams().GetDerivedKeyTemplate().GetOutputPrefixType(), prefix)
+	}
+	return ""
+}
+
+// hugeTemplate: the derived-key parameters ask for a key of more than 1 MiB
+// (the parameters parsers have no upper bound on key_size; deriving allocates
+// the whole buffer before the PRF output runs out).
+func hugeTemplate(k key.Key) bool {
+	dk, ok := k.(*prfbasedkeyderivation.Key)
+	if !ok {
+		return false
+	}
+	ps, ok := dk.Parameters().(*prfbasedkeyderivation.Parameters)
+	if !ok {
+		return false
+	}
+	type sized interface{ KeySizeInBytes() int }
+	if s, ok := ps.DerivedKeyParameters().(sized); ok && s.KeySizeInBytes() > 1<<20 {
+		return true
+	}
+	return false
 }
 
 func strp(s string) *string { return &s }
@@ -909,7 +1011,13 @@ func factories(h *keyset.Handle) (res string) {
 	if v, err := jwt.NewVerifier(h); err == nil {
 		v.VerifyAndDecode("a.b.c", val)
 	}
-	if d, err := keyderivation.New(h); err == nil {
+	huge := false
+	for i := 0; i < h.Len(); i++ {
+		if e, err := h.Entry(i); err == nil && hugeTemplate(e.Key()) {
+			huge = true
+		}
+	}
+	if d, err := keyderivation.New(h); err == nil && !huge {
 		if dh, err := d.DeriveKeyset(msg); err == nil {
 			if w := wellFormed(dh); w != "" {
 				return "derived keyset: " + w
@@ -925,6 +1033,9 @@ func c14Check(in, obs string) string {
 	}
 	if strings.Contains(obs, ".!") {
 		return "creating a primitive from an accepted key panicked"
+	}
+	if strings.HasPrefix(in, "P|") {
+		return checkParams(strings.Split(in, "|")[1])
 	}
 	r := execute(in)
 	must := "undecodable input"
@@ -959,6 +1070,9 @@ func c14Check(in, obs string) string {
 			}
 			if req, has := e.Key().IDRequirement(); r.ks.GetKey()[j].GetOutputPrefixType() == tinkpb.OutputPrefixType_RAW && (has || req != 0) {
 				return fmt.Sprintf("entry %d: RAW key with an id requirement", j)
+			}
+			if w := deriverMustReject(kd, r.ks.GetKey()[j].GetOutputPrefixType()); w != "" {
+				return fmt.Sprintf("entry %d: a PRF-based deriver key was accepted although %s", j, w)
 			}
 			p, err, pn := primFromKey(e.Key())
 			if pn != "" {
@@ -999,6 +1113,8 @@ func c14Class(in, obs string) string {
 	switch {
 	case obs == "U":
 		o = "U"
+	case strings.HasPrefix(obs, "p:") && obs != "p:err":
+		o = "ok"
 	case strings.HasPrefix(obs, "PANIC"):
 		o = "panic"
 	case strings.Contains(obs, "h["):
